@@ -496,7 +496,7 @@ class AtomsCollection:
         for aname in self._arrays:
             for i, c in enumerate(chunks):
                 c.set_array(
-                    aname, self._arrays[aname][i * chunk_size : i * (chunk_size + 1)]
+                    aname, self._arrays[aname][i * chunk_size : (i + 1) * chunk_size]
                 )
 
         return chunks
